@@ -238,6 +238,29 @@ def parallel_tuples(assumptions, grp, split, solver, timeout, workers, enum, log
     return tuples, complete, queries
 
 
+def local_tuples(assumptions, grp, memo, solver='z3', timeout=600):
+    """AllSAT of a small-support group against only the assumption conjuncts that talk about
+    the group's input bits.  Dropping the other conjuncts can only add tuples (sound
+    over-approximation of the reachable set); the formula is tiny, so enumeration is fast.
+    Returns (tuples, complete, queries)"""
+    sup = frozenset()
+    for t in grp:
+        sup = sup | support(t, memo)
+    lits = []
+    for a in assumptions:
+        for l in TM._lits(a):
+            ls = support(l, memo)
+            # conjuncts about (almost) everything are left out: they cannot be projected cheaply
+            if ls & sup and len(ls) <= 40:
+                lits.append(l)
+    e = Enumerator(lits, grp, solver, timeout)
+    try:
+        tups, ok = e.tuples(grp)
+        return tups, ok, e.queries
+    finally:
+        e.close()
+
+
 def fine_frontier(terms_, maxbits, memo):
     """maximal subterms (below terms_) whose value depends on at most maxbits input bits"""
     out = {}
@@ -275,6 +298,121 @@ def _dv_worker(rg):
     return np.unique(mat, axis=0)
 
 
+def col_domain(t):
+    """sorted list of the values (as unsigned machine values) a column term can take, from its structure"""
+    if t.sort == 'B':
+        return [0, 1]
+    vs = TM.valueset(t)
+    if vs is not None:
+        return sorted(vs)
+    r = TM._irange(t)
+    if r is not None and r[1] - r[0] < 4096:
+        w = t.sort
+        return sorted((v & ((1 << w) - 1)) for v in range(r[0], r[1] + 1))
+    return None
+
+
+def _dvk_worker(rg):
+    """like _dv_worker but returns the unique rows packed into one uint64 key per row"""
+    import numpy as np
+    import vecval
+    g = _DV
+    lo, hi = rg
+    idx = np.arange(lo, hi, dtype=np.int64)
+    env = {}
+    for (cols, size, stride) in g['groups']:
+        dig = (idx // stride) % size
+        for name, arr in cols:
+            env[name] = arr[dig]
+    res = vecval.evaluate(g['outs'], env, hi - lo)
+    key = np.zeros(hi - lo, dtype=np.uint64)
+    for r, dom, st in zip(res, g['domains'], g['strides']):
+        r = r.astype(np.uint64)
+        pos = np.searchsorted(dom, r)
+        pos = np.minimum(pos, len(dom) - 1)
+        if not np.array_equal(dom[pos], r):
+            raise ValueError('value outside the predicted column domain')
+        key += pos.astype(np.uint64) * np.uint64(st)
+    return np.unique(key)
+
+
+def derive_keys(grp, assumptions, workers, log, maxbits=5, memo=None, solver='z3', timeout=600):
+    """as derive_tuples, for very large tuple sets: returns (matrix of distinct rows as column
+    indices into the per-column domains, domains, complete, info)"""
+    import numpy as np
+    memo = {} if memo is None else memo
+    fine = fine_frontier(grp, maxbits, memo)
+    fgroups = group_terms(fine, memo)
+    gdesc = []
+    total = 1
+    complete = True
+    sub = {}
+    queries = 0
+    for fg in fgroups:
+        fg.sort(key=lambda t: t.id)
+        tups, ok, q = local_tuples(assumptions, fg, memo, solver, timeout)
+        queries += q
+        complete = complete and ok
+        if not tups:
+            return None, None, False, {'reason': 'empty fine group'}
+        cols = []
+        for j, t in enumerate(fg):
+            v = TM.var('ff%d' % t.id, t.sort)
+            sub[t.id] = v
+            if t.sort == 'B':
+                arr = np.array([bool(tp[j]) for tp in tups])
+            else:
+                arr = np.array([tp[j] for tp in tups], dtype=np.uint64)
+            cols.append((v.val, arr))
+        gdesc.append([cols, len(tups), None])
+        total *= len(tups)
+    stride = 1
+    for gd in gdesc:
+        gd[2] = stride
+        stride *= gd[1]
+    outs = [substitute(t, sub) for t in grp]
+    domains = []
+    strides = []
+    st = 1
+    for t in grp:
+        d = col_domain(t)
+        if d is None:
+            return None, None, False, {'reason': 'no finite domain for column %s' % TM.pp(t, 2)}
+        domains.append(np.array(d, dtype=np.uint64))
+        strides.append(st)
+        st *= len(d)
+        if st >= 1 << 63:
+            return None, None, False, {'reason': 'row key does not fit in 64 bits'}
+    _DV.clear()
+    _DV.update({'groups': [tuple(g) for g in gdesc], 'outs': outs, 'domains': domains, 'strides': strides})
+    chunk = 400000
+    ranges = [(i, min(total, i + chunk)) for i in range(0, total, chunk)]
+    t0 = time.time()
+    if len(ranges) == 1 or workers <= 1:
+        parts = [_dvk_worker(r) for r in ranges]
+    else:
+        parts = []
+        with multiprocessing.Pool(workers) as pool:
+            acc = []
+            n = 0
+            for p in pool.imap_unordered(_dvk_worker, ranges, chunksize=1):
+                acc.append(p)
+                n += len(p)
+                if n > 40000000:
+                    acc = [np.unique(np.concatenate(acc))]
+                    n = len(acc[0])
+            parts = acc
+    keys = np.unique(np.concatenate(parts))
+    mat = np.empty((len(keys), len(grp)), dtype=np.int64)
+    rest = keys.copy()
+    for j in range(len(grp) - 1, -1, -1):
+        mat[:, j] = (rest // np.uint64(strides[j])).astype(np.int64)
+        rest = rest % np.uint64(strides[j])
+    info = {'fine_terms': len(fine), 'fine_groups': [g[1] for g in gdesc], 'fine_cubes': total, 'rows': int(len(keys)), 'eval_s': round(time.time() - t0, 1), 'allsat_queries': queries}
+    log('      derived %d distinct rows of %d columns from %d fine cubes (%s) in %.1fs' % (len(keys), len(grp), total, 'x'.join(str(g[1]) for g in gdesc), time.time() - t0))
+    return mat, domains, complete, info
+
+
 def derive_tuples(grp, enum, workers, log, maxbits=5, memo=None):
     """value tuples of the (coarse) terms grp: the solver enumerates the tuples of a finer frontier
     (small bit-field terms, grouped by support; final unsat = coverage), the coarse terms are then
@@ -289,7 +427,8 @@ def derive_tuples(grp, enum, workers, log, maxbits=5, memo=None):
     sub = {}
     for fg in fgroups:
         fg.sort(key=lambda t: t.id)
-        tups, ok = enum.tuples(fg)
+        tups, ok, q = local_tuples(enum.assumptions, fg, memo, enum.kind, enum.timeout)
+        enum.queries += q
         complete = complete and ok
         if not tups:
             return [], False, {'reason': 'empty fine group'}
